@@ -1234,3 +1234,79 @@ def _fixedbuf(db, rep, file_ok):
                        "condition that holds at the store tests the index or bounds the iteration by a compile-time constant")
 def r_fixedbuf(db, rep):
     _fixedbuf(db, rep, lambda fl: not fl.startswith("libcds/"))
+
+
+# ---------------------------------------------------------------------------------------------------
+@rule("R-STALEVAR", 2, "per-item results do not leak between loop iterations: a local that is computed (from values other than itself) "
+                       "only inside an inner loop that may run zero times, and that is read after that inner loop in the same iteration "
+                       "of the enclosing loop, is assigned on every path from the start of the iteration to the read; otherwise the "
+                       "read sees what the previous item (or the code before the loop) left behind")
+def r_stalevar(db, rep):
+    LOOPS = ("ForStmt", "WhileStmt", "DoStmt", "CXXForRangeStmt")
+    for f in sorted(db.funcs.values(), key=lambda x: (x.file, x.line)):
+        if not f.body or f.cfg is None:
+            continue
+        loops = [n for n in f.live_nodes() if n["k"] in LOOPS and n.get("body") is not None]
+        if len(loops) < 2:
+            continue
+        wl = list(written_lvalues(f))
+        written_ids = {strip(lv).get("id") for lv, w in wl}
+        for L in loops:
+            body = L["body"]
+            in_L = {id(x) for x in walk(L)}
+            inner = [n for n in walk(body) if n["k"] in ("ForStmt", "WhileStmt") and n is not L]     # these may run zero times
+            if not inner:
+                continue
+            defs = {}
+            for lv, w in wl:
+                p = access_path(f, lv)
+                if p and p[0] == "local" and len(p) == 2 and id(w) in in_L:
+                    defs.setdefault(p[1], []).append(w)
+            declared = {d.get("d") for n in walk(L) if n["k"] == "DeclStmt" for d in n["decls"]}
+            for v, ws in defs.items():
+                if v in declared:
+                    continue            # a fresh variable per iteration (an uninitialised read is the compiler's -Wmaybe-uninitialized)
+                for I in inner:
+                    in_I = {id(x) for x in walk(I)}
+                    if not all(id(w) in in_I for w in ws):
+                        continue
+                    anc = [a for a in f.ancestors(I) if a["k"] in LOOPS]
+                    if not anc or anc[0] is not L:
+                        continue
+                    uses = [u for u in walk(body) if u["k"] == "DeclRefExpr" and u.get("dk") == "local" and u.get("d") == v
+                            and id(u) not in in_I and u.get("id") not in written_ids]
+                    if not uses:
+                        continue
+                    rep.visit(f)
+                    # a cursor / accumulator: some definition reads the variable itself - carried on purpose
+                    selfref = any(w["k"] == "UnaryOperator" or w.get("op") not in (None, "=") or
+                                  any(x["k"] == "DeclRefExpr" and x.get("dk") == "local" and x.get("d") == v for x in walk(w.get("rhs") or {"k": "none"}))
+                                  for w in ws)
+                    rep.inst(f.nloc(I), "%s: local#%s is set only in the inner loop at line %s and read after it (%s)" % (
+                        f.qn, v, I.get("l"), "carried on purpose: its definitions read it" if selfref else "per-item value"))
+                    if selfref:
+                        continue
+                    cfg = f.cfg
+                    # start of an iteration of L: the position of the first statement of its body
+                    first = body.get("c", [body])[0] if body["k"] == "CompoundStmt" and body.get("c") else body
+                    start = None
+                    for x in walk(first):
+                        start = cfg.position(x)
+                        if start is not None:
+                            break
+                    dpos = [cfg.position(w) for w in ws if cfg.position(w) is not None]
+                    for u in uses:
+                        up = cfg.position(u)
+                        if up is None or start is None:
+                            continue
+                        rep.ob()
+                        # the use follows the inner loop in the iteration (not a use before it)
+                        ipos = cfg.position(strip(I["cond"])) if I.get("cond") is not None else None
+                        if ipos is None or not cfg.path_exists(ipos, [up], avoid=[start]):
+                            continue
+                        if cfg.path_exists(start, [up], avoid=dpos) or start == up:
+                            rep.viol("%s#stale-local#%s" % (f.qn, v), f.nloc(u),
+                                     "%s reads local#%s at line %s after the inner loop at line %s, which is the only place that sets it and may "
+                                     "run zero times: on that path the value left by the previous iteration of the loop at line %s (or by the code "
+                                     "before it) decides what is done for this item" % (f.qn, v, u.get("l"), I.get("l"), L.get("l")), f.qn)
+                            break
